@@ -374,7 +374,7 @@ func R5(pkgs ...string) func(p *core.Prog) *core.Result {
 				continue
 			}
 			hasPush := false
-			if core.FuncName(f) == "pushLen" || (f.Signature.Recv() != nil && namedOf(f.Signature.Recv().Type()) != nil && namedOf(f.Signature.Recv().Type()).Obj().Name() == "lengthStack") {
+			if core.FuncName(f) == "pushLen" || (f.Signature.Recv() != nil && namedOf(f.Signature.Recv().Type()) != nil && core.TypeName(namedOf(f.Signature.Recv().Type())) == "lengthStack") {
 				continue // the wrapper / the stack itself: their callers are the push sites
 			}
 			for _, b := range f.Blocks {
@@ -513,9 +513,9 @@ func R5(pkgs ...string) func(p *core.Prog) *core.Result {
 						return
 					}
 					var other ssa.Value
-					if prm, ok := x.X.(*ssa.Parameter); ok && prm.Name() == "major" {
+					if prm, ok := x.X.(*ssa.Parameter); ok && isMajorParam(prm) {
 						other = x.Y
-					} else if prm, ok := x.Y.(*ssa.Parameter); ok && prm.Name() == "major" {
+					} else if prm, ok := x.Y.(*ssa.Parameter); ok && isMajorParam(prm) {
 						other = x.X
 					} else {
 						return
@@ -555,7 +555,7 @@ func R5(pkgs ...string) func(p *core.Prog) *core.Result {
 				if cc.IsInvoke() && cc.Method.Pkg() != nil && cc.Method.Pkg().Path() == core.ModPath && (isNumEvent(cc.Method.Name())) {
 					isSink = true
 				}
-				if sc := cc.StaticCallee(); sc != nil && core.FuncName(sc) == "push" && sc.Signature.Recv() != nil && namedOf(sc.Signature.Recv().Type()) != nil && namedOf(sc.Signature.Recv().Type()).Obj().Name() == "lengthStack" {
+				if sc := cc.StaticCallee(); sc != nil && core.FuncName(sc) == "push" && sc.Signature.Recv() != nil && namedOf(sc.Signature.Recv().Type()) != nil && core.TypeName(namedOf(sc.Signature.Recv().Type())) == "lengthStack" {
 					isSink = true
 				}
 				if !isSink || len(cc.Args) == 0 {
@@ -1046,7 +1046,7 @@ func inlineArgSource(v ssa.Value) (ssa.Value, bool) {
 				}
 			}
 		case *ssa.Parameter:
-			if x.Name() == "minor" {
+			if isMinorParam(x) {
 				return x, compl
 			}
 		}
@@ -1078,11 +1078,14 @@ func acceptedReinterpretation(p *core.Prog, f *ssa.Function, cv *ssa.Convert) (s
 		if refs := cv.Referrers(); refs != nil {
 			for _, rf := range *refs {
 				c, ok := rf.(*ssa.Call)
-				if !ok || len(c.Common().Args) < 3 {
+				if !ok {
 					continue
 				}
-				if cmp, ok := c.Common().Args[1].(*ssa.BinOp); ok && cmp.Op == token.LSS && cmp.X == cv.X && isIntConst(cmp.Y, 0) {
-					return "the sign is passed alongside as v < 0 of the same v (two's-complement magnitude, negated by the callee)", true
+				// the sign travels in another argument of the same call, whatever the parameter order of the formatter
+				for _, a := range c.Common().Args {
+					if cmp, ok := a.(*ssa.BinOp); ok && cmp.Op == token.LSS && cmp.X == cv.X && isIntConst(cmp.Y, 0) {
+						return "the sign is passed alongside as v < 0 of the same v (two's-complement magnitude, negated by the callee)", true
+					}
 				}
 			}
 		}
